@@ -7,6 +7,7 @@ import (
 	"time"
 
 	"github.com/ipfs/ipfs-cluster/api"
+	peer "github.com/libp2p/go-libp2p-core/peer"
 
 	"verif/simkit"
 )
@@ -54,7 +55,11 @@ func genC06(tier string, seed uint64) *simkit.Plan {
 		}
 	}
 	for i, m := 0, r.Range(2, 12); i < m; i++ {
-		switch r.Intn(6) {
+		switch r.Intn(7) {
+		case 6:
+			// a member leaves the peerset (removed, or - with CRDT - silent for longer
+			// than its ping metric lives) while pins still name it in their allocations
+			p.AddStep(Step{Op: "leave", Target: r.Intn(n)})
 		case 0:
 			p.AddStep(Step{Op: "cut", Peer: r.Intn(real), Target: r.Intn(real)})
 		case 1:
@@ -107,10 +112,35 @@ func execC06(plan *simkit.Plan, run *simkit.Run) {
 		}
 		return !cut[[2]int{x, y}]
 	}
+	gone := map[int]bool{}
 	for _, raw := range plan.Steps {
 		s := decode(raw)
 		run.Step()
+		if (s.Op == "status" || s.Op == "statusall") && gone[s.Peer%real] {
+			continue // the observer is no longer a member
+		}
 		switch s.Op {
+		case "leave":
+			m := s.Target % n
+			left := 0
+			for i := 0; i < n; i++ {
+				if !gone[i] {
+					left++
+				}
+			}
+			if gone[m] || left <= 1 {
+				continue
+			}
+			gone[m] = true
+			var ps []peer.ID
+			for i := 0; i < n; i++ {
+				if !gone[i] {
+					ps = append(ps, w.allIDs[i])
+				}
+			}
+			w.sh.SetPeers(ps)
+			run.Fault("member_left_peerset")
+			run.Ev("cons", "leave", "p%d", m)
 		case "seed":
 			pin := api.PinCid(w.cids[s.Cid])
 			pin.Name = s.Name
@@ -180,6 +210,12 @@ func execC06(plan *simkit.Plan, run *simkit.Run) {
 			e := pinset[s.Cid]
 			want := map[int]api.TrackerStatus{}
 			for m := 0; m < n; m++ {
+				if gone[m] && (e == nil || e.everywhere || !e.allocs[m]) {
+					continue // not a member and not named by the pin: it does not appear
+				}
+				if gone[m] {
+					run.Probe("allocated_peer_left_peerset")
+				}
 				switch {
 				case e == nil:
 					want[m] = api.TrackerStatusUnpinned
@@ -224,6 +260,9 @@ func execC06(plan *simkit.Plan, run *simkit.Run) {
 				// trackers list every pin, remote ones as remote), cluster_error otherwise
 				want := map[int]api.TrackerStatus{}
 				for m := 0; m < n; m++ {
+					if gone[m] {
+						continue // the listing is built from the members' own listings
+					}
 					if reach(obs, m) {
 						want[m] = reports[m][ci]
 					} else {
